@@ -9,9 +9,9 @@ MISSED_FIRST = {
     2: {"C01": "", "C05": "quick (thorough caught it)", "C06": "", "C08": "", "C09": "", "C13": "", "C20": ""},
     3: {"C01": "", "C03": "", "C05": "", "C07": "", "C08": "", "C10": "", "C11": "", "C12": "", "C14": "", "C17": "", "C19": "", "C20": ""},
     4: {"C01": "", "C02": "", "C03": "", "C04": "quick (thorough reaches the history at depth 6)", "C08": "", "C10": "", "C12": "", "C13": "", "C14": "C13 reported it", "C17": "", "C20": ""},
-    5: {"C01": "", "C02": "", "C03": "", "C08": "", "C13": "", "C17": ""},
+    5: {"C01": "", "C02": "", "C03": "", "C06": "", "C07": "", "C08": "", "C09": "", "C13": "", "C17": "", "C19": "the harness could not be built against it (sync.Pool was not in the shim)"},
     6: {"C02": "", "C03": "", "C13": "", "C17": ""},
-    7: {},
+    7: {"C02": "", "C03": "", "C13": "", "C17": ""},
 }
 
 
